@@ -110,6 +110,49 @@ def simp(t):
     return z3.simplify(t)
 
 
+def nonzero(t) -> bool:
+    """Is t provably non-zero on the current path?"""
+    if is_num(t):
+        return frac(t) != 0
+    if _cur is None:
+        return False
+    key = ("nz", t.get_id(), len(_cur.path), len(_cur.assume), len(_cur.defs))
+    memo = _cur.notes.setdefault("nz_memo", {})
+    if key not in memo:
+        r, _ = _cur.check([t == 0])
+        memo[key] = r == "unsat"
+    return memo[key]
+
+
+def cancel_mul(a, b):
+    """(p/q)*q -> p when q is provably non-zero (z3's simplifier never cancels
+    symbolic denominators)."""
+    for u, v in ((a, b), (b, a)):
+        if z3.is_app(u) and u.decl().kind() == z3.Z3_OP_DIV and not is_num(v):
+            p, q = u.children()
+            if q.get_id() == v.get_id() and nonzero(v):
+                return p
+    return None
+
+
+def cancel_div(a, b):
+    """(p*q)/q -> p when q is provably non-zero."""
+    if is_num(b) or not z3.is_app(a):
+        return None
+    if a.get_id() == b.get_id() and nonzero(b):
+        return z3.RealVal(1)
+    if a.decl().kind() == z3.Z3_OP_MUL:
+        ch = a.children()
+        for i, c in enumerate(ch):
+            if c.get_id() == b.get_id() and nonzero(b):
+                rest = ch[:i] + ch[i + 1 :]
+                out = rest[0]
+                for r in rest[1:]:
+                    out = out * r
+                return simp(out)
+    return None
+
+
 def ipow(base, k: int):
     """base**k for a python integer k by repeated multiplication."""
     if k == 0:
@@ -587,9 +630,7 @@ def sx_exp(t):
             out = mul(out, ipow(c.exp_atom(atom), int(q * c.D)))
             continue
         term = atom * rv(q) if q != 1 else atom
-        opaque = term if opaque is None else opaque + term
-    if opaque is not None:
-        out = mul(out, EXP(simp(opaque)))
+        out = mul(out, EXP(simp(term)))
     if const != 0:
         out = mul(out, _exp_const(const))
     if out is None:
@@ -656,6 +697,21 @@ def sx_sqrt(t):
         n, d = math.isqrt(f.numerator), math.isqrt(f.denominator)
         if f >= 0 and n * n == f.numerator and d * d == f.denominator:
             return rv(Fraction(n, d))
+    base = None
+    if z3.is_app(t):
+        k = t.decl().kind()
+        ch = t.children()
+        if k == _MUL and len(ch) == 2 and ch[0].get_id() == ch[1].get_id():
+            base = ch[0]
+        elif k == z3.Z3_OP_POWER and is_num(ch[1]) and frac(ch[1]) == 2:
+            base = ch[0]
+    if base is not None and _cur is not None:
+        r1, _ = _cur.check([base < 0])
+        if r1 == "unsat":
+            return base
+        r2, _ = _cur.check([base > 0])
+        if r2 == "unsat":
+            return simp(-base)
     return SQRT(t)
 
 
@@ -759,6 +815,8 @@ def lemma_instances(fs, ctx: Ctx):
                     if name in ("EXP", "ERF"):
                         new.append((p.arg(0) < q.arg(0)) == (p < q))
                         new.append((p.arg(0) == q.arg(0)) == (p == q))
+                    if name == "EXP":
+                        new.append(z3.Implies(p.arg(0) == -q.arg(0), p * q == 1))
                     elif name in ("LOG",):
                         new.append(
                             z3.Implies(
